@@ -30,6 +30,10 @@ the plain enums `E<i>`, a field may end at a proper subclass of a builtin scalar
 with a scalar mix-in (`class Mint0(enum.IntEnum)`, `class Mint1(int, enum.Enum)`, `class Mstr0(enum.StrEnum)`, …) or at
 an unrelated plain class (`class P0`): none of them is builtin-valued, the mix-in enums are enums.
 
+Field overriding: a subclass may re-declare a field name it inherits with another annotation (`f0: C4` over `f0: C3`,
+`List[C4]` over `List[C3]`, `Optional[int]` over `int`, ...); the class then has ONE field of that name, analysed as its
+own (most derived) declaration says — `typing.get_type_hints(cls)[name]` — while the base keeps its own.
+
 Ground truth never comes from the code under test: the Lean driver computes `spec=` from the generating terms."""
 from __future__ import annotations
 
@@ -48,7 +52,7 @@ except ModuleNotFoundError:  # run as a script (render helper at the bottom): ha
     from core import Case
 
 PID = "C17"
-LEAN_MODULES = ["KrroodVerif.Props.C17"]
+LEAN_MODULES = ["KrroodVerif.Props.C17", "KrroodVerif.Props.C17Override"]
 THEOREMS = [
     "KrroodVerif.CD.C17_classify",
     "KrroodVerif.CD.C17_classify_partial",
@@ -66,6 +70,14 @@ THEOREMS = [
     "KrroodVerif.CD.C17_accessors_pure",
     "KrroodVerif.CD.C17_consistent",
     "KrroodVerif.CD.C17_enum_one_to_one",
+    # field overriding (Props/C17Override.lean)
+    "KrroodVerif.CD.C17_fields_names_nodup",
+    "KrroodVerif.CD.C17_public_names_nodup",
+    "KrroodVerif.CD.C17_fieldsOf_unfold",
+    "KrroodVerif.CD.C17_override_most_derived",
+    "KrroodVerif.CD.C17_inherited_unless_redeclared",
+    "KrroodVerif.CD.C17_override_keeps_position",
+    "KrroodVerif.CD.C17_edges_any_fields",
 ]
 
 
@@ -140,7 +152,9 @@ TRUSTED = [
 ASSUMPTIONS = [
     "CPython 3.12 typing: get_type_hints evaluates string annotations to the objects they name; get_origin/get_args "
     "as tabulated in CD.getOrigin/CD.getArgs (X | None is a types.UnionType, Union[None, X] keeps None first)",
-    "dataclasses.fields: inherited fields first (bases right to left, no diamonds generated), then own fields",
+    "dataclasses.fields: inherited fields first (bases right to left, no diamonds generated), then own fields; a name "
+    "declared again (by the class itself or by a base listed earlier) keeps the position of its first introduction and "
+    "takes the later declaration; typing.get_type_hints(cls)[name] is the annotation of the most derived declaration",
     "rustworkx PyDiGraph: edge_list() in insertion order; get_edge_data/remove_edge pick the most recently added "
     "parallel edge; graph.copy() is independent of the original",
     "fields annotated with a TypeVar (`x: T` in a Generic class) are not generated: a TypeVar is not a term of the "
@@ -148,12 +162,17 @@ ASSUMPTIONS = [
     "endpoint classes: listed builtin scalar | proper subclass of a builtin scalar (class Sfloat0(float); bool cannot be "
     "subclassed) | plain Enum | Enum with a scalar mix-in (IntEnum, StrEnum, (int|str|float, Enum)) | dataclass of the "
     "world | other plain class; builtin-valued means exact membership in [int, float, str, bool, datetime, NoneType]",
-    "field names are unique in a case, every field has a default, no Role classes, no bare containers, no Dict / "
+    "a field name is declared at most once per class body (a subclass may re-declare the names it inherits, with any "
+    "annotation of the grammar), every field has a default (so re-declaring never hits the dataclass rule about "
+    "non-default fields after default ones), no Role classes, no bare containers, no Dict / "
     "FrozenSet / Any annotations (outside the supported grammar: container_types names the supported containers)",
 ]
 RULE = ("small-scope exhaustive families (generic bases Generic[T] / C0[arg] / plain subclasses x class lists; twin "
         "diagrams sharing class objects in one process; every wrapper form x leaf x quoting on a two-class world; every pair of "
-        "wrappers; inheritance shapes x class-list orders x sub-diagram sequences) plus seeded random programs from "
+        "wrappers; inheritance shapes x class-list orders x sub-diagram sequences; field overriding: narrowing / widening / "
+        "wrapper change / class <-> scalar x where in the hierarchy the name is re-declared, incl. the same name in two "
+        "unrelated bases) plus seeded random programs (a subclass re-declares each inherited field with probability "
+        "0 / 0.15 / 0.3 / 0.6 per program) from "
         "the annotation grammar; every case builds the diagram in the given and in the reversed class order; "
         "non-trivial = the specification demands at least one edge; distinct by case text")
 EXHAUSTIVE = True
@@ -364,6 +383,41 @@ def cls_refs(a) -> List[int]:
     return []
 
 
+def fkey(priv: bool, idx: int) -> str:
+    return f"{'_f' if priv else 'f'}{idx}"
+
+
+def effective_fields(defs) -> Dict[int, List[Tuple[bool, int, tuple]]]:
+    """class id -> its dataclass fields as Python says (`dataclasses.fields` for the order, `typing.get_type_hints` for
+    the type; hierarchies without diamonds): the fields of the bases right to left, then the own ones; a name that is
+    declared again keeps the position of its first introduction and takes the annotation of the most derived
+    declaration. Used to decide HOW a field is observed (all seven flags / `o=` only, mirror of CD.plain on the field the
+    class really has) and by the generator to pick the names a subclass may re-declare; never as ground truth."""
+    table: Dict[int, List[Tuple[bool, int, tuple]]] = {}
+    for cid, bases, own in defs:
+        acc: List[Tuple[bool, int, tuple]] = []
+        for fld in [x for b in reversed(bases) for x in table.get(b, [])] + list(own):
+            for k, g in enumerate(acc):
+                if (g[0], g[1]) == (fld[0], fld[1]):
+                    acc[k] = fld
+                    break
+            else:
+                acc.append(fld)
+        table.setdefault(cid, acc)
+    return table
+
+
+def has_override(defs) -> bool:
+    """does some class re-declare a field name of one of its bases (or declare a name twice)?"""
+    eff = effective_fields(defs)
+    for cid, bases, own in defs:
+        inherited = {(g[0], g[1]) for b in bases for g in eff.get(b, [])}
+        names = [(g[0], g[1]) for g in own]
+        if inherited & set(names) or len(set(names)) != len(names):
+            return True
+    return False
+
+
 # ------------------------------------------------------------------------------------------- rendering
 
 EXT = ("sub", "mix", "plain")
@@ -556,12 +610,13 @@ def _snapshot(d) -> str:
     return "N[" + ",".join(nodes) + "] I[" + ",".join(inh) + "] A[" + ",".join(ass) + "]"
 
 
-def _static(d, anns: Dict[str, tuple]) -> str:
+def _static(d, anns: Dict[str, Dict[str, tuple]]) -> str:
+    """`anns`: class name -> field name -> the annotation term the class has for that field (`effective_fields`)"""
     fl = []
     for w in d.wrapped_classes:
         for f in w.fields:
             name = f.field.name
-            ann = anns.get(name)
+            ann = anns.get(w.clazz.__name__, {}).get(name)
             head = f"{w.clazz.__name__}.{name}:"
             if ann is not None and not plain(ann):
                 fl.append(head + "o=" + _flag(f, "is_optional"))
@@ -890,7 +945,7 @@ def _observe(p: Prog, root: str) -> str:
             mods[m] = importlib.import_module(f"{pkg}.m{m}")
         modof = {d[0]: mo for d, mo in zip(p.defs, p.modof)}
         classes = [getattr(mods[modof[c] if nmods == 2 else 0], f"C{c}") for c in p.order]
-        anns = {f"{'_f' if pr else 'f'}{i}": a for _, _, fs in p.defs for pr, i, a in fs}
+        anns = {f"C{c}": {fkey(pr, i): a for pr, i, a in fs} for c, fs in effective_fields(p.defs).items()}
 
         def twin_static(t: int) -> str:
             """a diagram of the same m0 class objects with same-named m1 classes of a twin module"""
@@ -1229,6 +1284,43 @@ def gen_ann(rng, n: int, enums: int, tags: set, allow_nested=True, allow_odd=Tru
     return a
 
 
+def _leaf_of(a):
+    t = a[0]
+    if t in ("opt", "cont"):
+        return _leaf_of(a[2])
+    if t in ("type", "fwd"):
+        return _leaf_of(a[1])
+    return a
+
+
+def gen_override(rng, old, n: int, enums: int, tags: set, allow_nested=True, allow_odd=True):
+    """the annotation with which a subclass re-declares an inherited field annotated `old`: the same wrappers around
+    another endpoint (narrowing / widening / unrelated), the same endpoint in another wrapper (`X` -> `Optional[X]`,
+    `List[X]` -> `Set[X]`, `Optional[X]` -> `X`, ...), or any other term of the grammar"""
+    old = strip_fwd(old)
+    r = rng.random()
+    if r < 0.4:
+        tags.add("override:retarget")
+        leaf = _gen_leaf(rng, n, enums, 0.7)
+        if leaf == _leaf_of(old):
+            leaf = _gen_leaf(rng, n, enums, 0.7)
+        a = _sub_leaf(old, _maybe_fwd(rng, leaf, 0.2))
+    elif r < 0.8:
+        tags.add("override:rewrap")
+        leaf = _leaf_of(old)
+        if leaf[0] == "union":
+            leaf = _gen_leaf(rng, n, enums)
+        leaf = _maybe_fwd(rng, leaf, 0.2)
+        st = _gen_style(rng) if allow_odd else rng.choices(["typing", "unionNone"], weights=[8, 2])[0]
+        forms = [leaf, ("opt", st, leaf), ("cont", rng.choice(KINDS), leaf), ("type", leaf)]
+        forms = [x for x in forms if strip_fwd(x) != old] or forms
+        a = rng.choice(forms)
+    else:
+        tags.add("override:fresh")
+        a = gen_ann(rng, n, enums, tags, allow_nested, allow_odd)
+    return a
+
+
 def gen_prog(rng, tags: set) -> Prog:
     n = rng.choice([1, 2, 2, 3, 3, 3, 4, 4, 5, 6])
     enums = rng.choice([0, 1, 1, 2])
@@ -1237,6 +1329,8 @@ def gen_prog(rng, tags: set) -> Prog:
     # two thirds of the programs stay inside the fragment on which the code as it is must equal the specification
     allow_nested = rng.random() < 0.2
     allow_odd = rng.random() < 0.2
+    # field overriding: a subclass re-declares each field it inherits with probability `over`
+    over = rng.choice([0.0, 0.0, 0.0, 0.15, 0.3, 0.6])
     bases: Dict[int, List[int]] = {}
     fidx = 0
     modof = []
@@ -1258,6 +1352,12 @@ def gen_prog(rng, tags: set) -> Prog:
         for _ in range(rng.choice([0, 1, 1, 2, 2, 3, 4])):
             fields.append((rng.random() < 0.15, fidx, gen_ann(rng, n, enums, tags, allow_nested, allow_odd)))
             fidx += 1
+        if bs and over:
+            inherited = effective_fields(p.defs + [(i, bs, [])])[i]
+            for pr, idx, old in inherited:
+                if rng.random() < over:
+                    new = (pr, idx, gen_override(rng, old, n, enums, tags, allow_nested, allow_odd))
+                    fields.insert(rng.randrange(len(fields) + 1), new)
         p.defs.append((i, bs, fields))
     p.modof = modof
     ids = list(range(n))
@@ -1316,6 +1416,8 @@ def gen_prog(rng, tags: set) -> Prog:
     if any(bases[b] for bs in bases.values() for b in bs):
         tags.add("multi-level")
     p = normalize(p)
+    if has_override(p.defs):
+        tags.add("field-override")
     if p.generic:
         tags.add("generic-bases")
     if p.twin:
@@ -1560,6 +1662,65 @@ def _exhaustive_deep(tier: str) -> List[Case]:
     return cases
 
 
+def _exhaustive_override(tier: str) -> List[Case]:
+    """family (g): a subclass re-declares a field of one of its bases with another annotation (narrowing, widening, wrapper
+    change, class <-> scalar). `C0 {f0: A, f1: int}`, `C1(C0)`, `C2(C1)`; `C3` and `C4(C3)` are the association targets, `C5`
+    an unrelated base that declares the same name. The most derived declaration is the one the class has."""
+    cases = []
+    pairs = [
+        (("cls", 3), ("cls", 4)),                                             # narrowing
+        (("cls", 4), ("cls", 3)),                                             # widening
+        (("cont", "list", ("cls", 3)), ("cont", "list", ("cls", 4))),         # narrowed element type
+        (("cont", "list", ("cls", 3)), ("cont", "bset", ("cls", 3))),         # another container
+        (("int",), ("opt", "typing", ("int",))),                              # scalar becomes optional
+        (("opt", "typing", ("cls", 3)), ("cls", 3)),                          # optional becomes required
+        (("cls", 3), ("opt", "typing", ("cls", 4))),
+        (("cls", 3), ("cont", "set", ("cls", 3))),                            # one-to-one becomes one-to-many
+        (("cls", 3), ("int",)),                                               # the association goes away
+        (("str",), ("cls", 3)),                                               # an association appears
+        (("cls", 3), ("enum", 0)),
+        (("cls", 3), ("type", ("cls", 3))),
+        (("opt", "unionNone", ("cls", 4)), ("opt", "pipe", ("cls", 3))),
+        (("cls", 3), ("fwd", ("cls", 2))),                                    # narrowed to the class itself
+    ]
+    if tier == "quick":
+        pairs = pairs[:3] + pairs[4:10] + pairs[13:]
+    I = ("int",)
+    shapes = ["leaf", "middle", "back", "twice", "other-base-last", "other-base-first", "private"]
+    orders = [[0, 1, 2, 3, 4, 5], [5, 4, 3, 2, 1, 0], [2, 3, 4], [4, 1, 3, 2]]
+    opseqs = [[], [("sub", 0, False)], [("sub", 0, True), ("read", 0), ("read", 1)]]
+    for a, b in pairs:
+        for shape in shapes:
+            pr = shape == "private"
+            own: Dict[int, list] = {0: [(pr, 0, a), (False, 1, I)], 1: [], 2: [], 5: []}
+            bases: Dict[int, List[int]] = {0: [], 1: [0], 2: [1], 5: []}
+            if shape in ("leaf", "private"):
+                own[2] = [(False, 2, I), (pr, 0, b)]
+            elif shape == "middle":
+                own[1] = [(pr, 0, b)]
+                own[2] = [(False, 2, I)]
+            elif shape == "back":
+                own[1] = [(pr, 0, b)]
+                own[2] = [(pr, 0, a), (False, 2, I)]
+            elif shape == "twice":
+                own[1] = [(False, 1, b), (pr, 0, b)]     # f1: int is re-declared as well
+                own[2] = [(False, 1, a)]
+            else:
+                own[5] = [(False, 3, I), (pr, 0, b)]
+                bases[2] = [1, 5] if shape == "other-base-last" else [5, 1]
+            for oi, order in enumerate(orders):
+                for k, ops in enumerate(opseqs):
+                    if tier == "quick" and (oi == 3 or (k == 2 and oi != 0) or (k == 1 and oi == 1)):
+                        continue
+                    defs = [(3, [], [(False, 90, I)]), (4, [3], []), (5, [], own[5])]
+                    defs += [(c, list(bases[c]), list(own[c])) for c in (0, 1, 2)]
+                    for fut in ((False, True) if (oi == 0 and k == 0) else (False,)):
+                        p = Prog(future=fut, enums=1, defs=defs, order=list(order), ops=list(ops))
+                        cases.append(_mk(p, {"exh:override", "field-override", "shape:" + shape, f"ops:{len(ops)}"},
+                                         "exhaustive"))
+    return cases
+
+
 def _exhaustive_twins(tier: str) -> List[Case]:
     """family (e): 2-module programs whose m0 classes name m1 classes under TYPE_CHECKING only, built into two or three
     diagrams of one process that share the m0 class objects and supply same-named twins of the m1 classes"""
@@ -1598,6 +1759,7 @@ def generate(rng, tier, n):
     cases += _exhaustive_generic(tier)
     cases += _exhaustive_twins(tier)
     cases += _exhaustive_deep(tier)
+    cases += _exhaustive_override(tier)
     for _ in range(n):
         tags: set = set()
         p = gen_prog(rng, tags)
